@@ -206,6 +206,7 @@ class St:
         self.imprecise = []   # notes: a branch taken without being able to refine
         self.branches = []    # human-readable decisions
         self.ext = {}         # extension state of derived interpreters: name -> object with .copy()
+        self.alias = {}       # symbol -> symbol it was found equal to (equality between two unknown bits)
 
     def copy(self):
         s = St()
@@ -219,6 +220,7 @@ class St:
         s.imprecise = list(self.imprecise)
         s.branches = list(self.branches)
         s.ext = {k: v.copy() for k, v in self.ext.items()}
+        s.alias = dict(self.alias)
         return s
 
     # --- facts -------------------------------------------------------------
@@ -228,6 +230,14 @@ class St:
         if b[0] == "!":
             x = self.norm(b[1])
             return bnot(x)
+        seen = 0
+        while b in self.alias and seen < 64:
+            b = self.alias[b]
+            seen += 1
+            if b in (0, 1) or b is None:
+                return b
+            if b[0] == "!":
+                return bnot(self.norm(b[1]))
         v = self.assume.get(b)
         return b if v is None else v
 
@@ -646,23 +656,45 @@ class Interp:
             yield s, True
             return
         lits = []
+        pairs = []
         for x, y in diff:
             if y in (0, 1) and x is not None:
                 lits.append((x, y))
             elif x in (0, 1) and y is not None:
                 lits.append((y, x))
+            elif x is not None and y is not None:
+                pairs.append((x, y))      # two unknown bits: equal on one side of the split, unrelated on the other
             else:
-                raise BrokenAnalysis("%s: equality between two unknown quantities (%s)" % (f.name, self.where(f, n)))
+                raise BrokenAnalysis("%s: equality involving bits the domain lost (%s)" % (f.name, self.where(f, n)))
         e = s.copy()
         try:
             for bit, want in lits:
                 e.learn(bit, want)
+            for x, y in pairs:
+                x, y = e.norm(x), e.norm(y)
+                if x in (0, 1) and y in (0, 1):
+                    if x != y:
+                        raise Infeasible()
+                elif x in (0, 1):
+                    e.learn(y, x)
+                elif y in (0, 1):
+                    e.learn(x, y)
+                elif x != y:
+                    if x[0] == "!" and y[0] == "!":
+                        x, y = x[1], y[1]
+                    if x[0] == "!":
+                        x, y = y, x
+                    if x[0] == "!":
+                        raise BrokenAnalysis("%s: equality between negated unknowns (%s)" % (f.name, self.where(f, n)))
+                    e.alias[x] = y
             e.branches.append("%s: equal" % self.where(f, n))
             yield e, True
         except Infeasible:
             pass
         try:
-            s.learn_some([(bit, 1 - want) for bit, want in lits])
+            if not pairs:
+                s.learn_some([(bit, 1 - want) for bit, want in lits])
+            # with unknown-vs-unknown pairs the inequality cannot be expressed: the trace keeps no fact (sound, less precise)
             s.branches.append("%s: not equal" % self.where(f, n))
             yield s, False
         except Infeasible:
